@@ -187,6 +187,7 @@ type Client struct {
 	Conn      *sim.Conn    // stream clients: the control connection
 	Stream    bool
 	Dead      bool // control connection closed
+	Stalled   bool // stream client that currently does not read its control connection
 	rbuf      []byte
 	User      int
 	Nonce     string // latest nonce seen
